@@ -892,15 +892,13 @@ impl Formatter {
         let mut line = String::from("|");
         for figure in row {
           line.push(' ');
-          line.push_str(&format!("![{}]({})", self.paragraph(&figure.caption), figure.src.to_string()));
+          line.push_str(&format!("![{}]({})", self.inline_paragraph(&figure.caption), figure.src.to_string()));
           line.push_str(" |");
-          let label = ((b'a' + (figure_ix as u8)) as char).to_string();
-          captions.push(format!("({}) {}", label, self.paragraph(&figure.caption)));
           figure_ix += 1;
         }
         lines.push(line);
       }
-      format!("{}\n{} {}\n", lines.join("\n"), figure_label, captions.join(" "))
+      format!("{}\n", lines.join("\n"))
     }
   }
 
